@@ -13,61 +13,31 @@ fn any_peak() -> f64 {
     PEAKS[i as usize]
 }
 
-/// difficulty_value(peaks, w) == "drop zeros, sort descending, sum p_i * w^i" evaluated in the
-/// same order (bit-equal), is finite and non-negative; zero-only / empty lists give 0.
-fn difficulty_value_model<const K: usize>() {
-    let mut vals = [0.0f64; K];
+/// difficulty_value(peaks, w) for two peaks == hi + lo * w (zeros dropped, larger first),
+/// evaluated in the code's own order (0.0 + hi * 1.0 + lo * w), bit-equal; finite, non-negative.
+#[kani::proof]
+#[kani::unwind(6)]
+pub fn c16_difficulty_value_k2() {
+    let (a, b) = (any_peak(), any_peak());
     let mut sv = StrainsVec::with_capacity(4);
-    for i in 0..K {
-        vals[i] = any_peak();
-        sv.push(vals[i]);
-    }
+    sv.push(a);
+    sv.push(b);
     let wi: u8 = kani::any();
     kani::assume(wi < 2);
     let w = WEIGHTS[wi as usize];
     let got = difficulty_value(sv, w);
-
-    // reference: insertion sort descending of the non-zero values, then the weighted sum
-    let mut sorted = [0.0f64; K];
-    let mut n = 0usize;
-    for i in 0..K {
-        if vals[i] > 0.0 {
-            let mut j = n;
-            while j > 0 && sorted[j - 1] < vals[i] {
-                sorted[j] = sorted[j - 1];
-                j -= 1;
-            }
-            sorted[j] = vals[i];
-            n += 1;
-        }
-    }
-    let mut want = 0.0;
-    let mut weight = 1.0;
-    for i in 0..K {
-        if i < n {
-            want += sorted[i] * weight;
-            weight *= w;
-        }
-    }
+    let (hi, lo) = if a >= b { (a, b) } else { (b, a) };
+    let want = if hi == 0.0 {
+        0.0
+    } else if lo == 0.0 {
+        0.0 + hi * 1.0
+    } else {
+        0.0 + hi * 1.0 + lo * (1.0 * w)
+    };
     assert!(got.to_bits() == want.to_bits(), "C16 difficulty_value is the decay-weighted sum of the sorted non-zero peaks");
     assert!(got.is_finite() && got >= 0.0, "C09 difficulty_value is finite and non-negative");
-    if n == 0 {
-        assert!(got == 0.0, "C09 difficulty_value of an empty or all-zero list is 0");
-    }
-    kani::cover!(n == K && K > 1 && vals[0] < vals[K - 1], "ascending input gets sorted");
-    kani::cover!(n == 0, "all zeros");
-}
-
-#[kani::proof]
-#[kani::unwind(6)]
-pub fn c16_difficulty_value_k2() {
-    difficulty_value_model::<2>();
-}
-
-#[kani::proof]
-#[kani::unwind(7)]
-pub fn c16_difficulty_value_k3() {
-    difficulty_value_model::<3>();
+    kani::cover!(a < b && a > 0.0, "ascending input gets sorted");
+    kani::cover!(hi == 0.0, "all zeros");
 }
 
 /// The peaks a skill exports = its closed sections + the currently open one, ALWAYS (also when the
@@ -116,7 +86,7 @@ fn open_section<const K: usize>() {
         assert!(it.next() == Some(vals[i]), "C16 closed sections are exported unchanged");
     }
     assert!(it.next() == Some(cur), "C16 the open section is exported last");
-    kani::cover!(cur == 0.0 && K > 0 && vals[K - 1] > 0.0, "open section with zero peak");
+    kani::cover!(cur == 0.0 && (K == 0 || vals[K - 1] > 0.0), "open section with zero peak");
     kani::cover!(cur > 0.0, "open section with positive peak");
     core::mem::forget(out);
 }
@@ -147,6 +117,6 @@ pub fn c09_degenerate_strain_lists() {
 }
 
 verif_replay_table!(verif_replay_any_skills;
-    c16_difficulty_value_k2, c16_difficulty_value_k3, c09_degenerate_strain_lists,
+    c16_difficulty_value_k2, c09_degenerate_strain_lists,
     c16_open_section_exported_k0, c16_open_section_exported_k2,
 );
